@@ -1,6 +1,7 @@
 package main
 
 import (
+	"encoding/binary"
 	"bytes"
 	"fmt"
 	"io"
@@ -16,10 +17,20 @@ import (
 
 func init() { register("C10", "exploration", checkC10) }
 
+// timeEq compares the decoded timestamp with the reference through its 16-byte wire form, so
+// that no field of the library's struct is named here (pad fields may be blank identifiers).
 func timeEq(t util.EFITime, r refauth2.Time) bool {
-	return t.Year == r.Year && t.Month == r.Month && t.Day == r.Day && t.Hour == r.Hour && t.Minute == r.Minute &&
-		t.Second == r.Second && t.Pad1 == r.Pad1 && t.Nanosecond == r.Nanosecond && t.TimeZone == r.TimeZone &&
-		t.Daylight == r.Daylight && t.Pad2 == r.Pad2
+	var lb bytes.Buffer
+	if err := binary.Write(&lb, binary.LittleEndian, t); err != nil || lb.Len() != 16 {
+		return false
+	}
+	want := make([]byte, 16)
+	binary.LittleEndian.PutUint16(want[0:], r.Year)
+	want[2], want[3], want[4], want[5], want[6], want[7] = r.Month, r.Day, r.Hour, r.Minute, r.Second, r.Pad1
+	binary.LittleEndian.PutUint32(want[8:], r.Nanosecond)
+	binary.LittleEndian.PutUint16(want[12:], uint16(r.TimeZone))
+	want[14], want[15] = r.Daylight, r.Pad2
+	return bytes.Equal(lb.Bytes(), want)
 }
 
 func lenClass(n int) string {
